@@ -1038,3 +1038,23 @@ pub fn ensure_accept_trait() {
     fn f<A: AcceptableMasterList>() {}
     f::<Aml>();
 }
+
+// ---------------------------------------------------------------------------
+// protocol helpers
+
+/// Deliver two consecutive Announces from `parent` and run a BMCA so that the
+/// port becomes slave of it by the normal protocol. Returns false if it did not.
+pub fn make_slave(node: &mut Node, p: usize, parent: PortId, ann: refcodec::RAnnounce, first_seq: u16) -> bool {
+    for k in 0..2u16 {
+        let m = announce_from(parent, first_seq.wrapping_add(k), ann, node.cfg.domain, node.cfg.sdo);
+        node.recv_general(p, &m.encode());
+    }
+    node.bmca();
+    node.state(p) == PS::Slave && node.ds().parent == parent
+}
+
+pub fn in_domain(node: &Node, m: &mut refcodec::RMsg) {
+    m.header.domain = node.cfg.domain;
+    m.header.major_sdo = (node.cfg.sdo >> 8) as u8;
+    m.header.minor_sdo = node.cfg.sdo as u8;
+}
